@@ -78,6 +78,9 @@ class Reference(object):
                     self.rows[op[1]]['alive'] = False
                     for ai in range(len(self.links)):
                         self.links[ai] = [(s, t) for (s, t) in self.links[ai] if s != op[1] and t != op[1]]
+        self.idents_of = {}
+        for c, n, attrs in spec['idents']:
+            self.idents_of.setdefault(U(c), []).append((n, attrs))
         # which associations use an attribute of a class as referential attribute (later definitions first)
         self.ref_use = {}
         for ai, a in enumerate(self.assocs):
@@ -141,11 +144,10 @@ class Reference(object):
 
     def identifying_attributes(self, cname):
         out = []
-        for c, _, attrs in self.spec['idents']:
-            if U(c) == U(cname):
-                for a in attrs:
-                    if a not in out:
-                        out.append(a)
+        for _, attrs in self.idents_of.get(U(cname), []):
+            for a in attrs:
+                if a not in out:
+                    out.append(a)
         return out
 
     def is_null_id(self, cname, attr, value):
@@ -161,7 +163,7 @@ class Reference(object):
         lo = hi = 0
         names = [c['name'] for c in self.spec['classes']] if kinds is None else kinds
         for cname in names:
-            ids = [(n, attrs) for c, n, attrs in self.spec['idents'] if U(c) == U(cname)]
+            ids = self.idents_of.get(U(cname), [])
             idattrs = self.identifying_attributes(cname)
             seen = dict((n, []) for n, _ in ids)
             for i in self.instances(cname):
